@@ -42,11 +42,12 @@ LAST = {}
 
 HEADS = [("F()", []), ("F(x)", ["x"]), ("F(x,y)", ["x", "y"]), ("F(x,...)", ["x", "__VA_ARGS__"]), ("F(...)", ["__VA_ARGS__"])]
 ITEMS = ["x", "1", "+", "G", "y", "#x", "x##y", "x##1", "__VA_ARGS__", "H",
-         "1##x", "#__VA_ARGS__", "F", "(", ")", ",", "F(x)", "y##__VA_ARGS__"]
+         "1##x", "#__VA_ARGS__", "F", "(", ")", ",", "F(x)", "y##__VA_ARGS__", "x##y##1", "#y"]
 GDEFS = [("G", "F"), ("G", "1"), ("G(y)", "F(y)"), ("G", "H"), ("G", "F(H)"), ("G", "G"), ("G(y)", "y H"), ("G", "x"), ("G(y)", "y")]
 HDEFS = [("H", "2"), ("H", "G"), ("H", "x##1 F")]
 INVS = ["F(1)", "F(1,2)", "F()", "F(G)", "F(F(1))", "F(1)(2)", "F (1,2,3)", "F", "F(H,G)", "G(3)", "H(F)(1)", "F((1,2),3)",
-        "F(,)", "G", "F(F)(2)", "F(a b, c)", 'F("s")', "F(G(3))", "G(F)(1)", "H", "F(1,G(2),H)"]
+        "F(,)", "G", "F(F)(2)", "F(a b, c)", 'F("s")', "F(G(3))", "G(F)(1)", "H", "F(1,G(2),H)",
+        "F(1,)", "F( 1 )", "F(1 , 2 , 3)", "F(,x)", "F(,,)", "F('a')", 'F("a\\n", \'\\0\')']
 
 
 def _lex_body(text):
@@ -78,7 +79,8 @@ def _cbi_platform(defs):
 
 
 def _spell(toks):
-    return [str(t) for t in toks]
+    # (str() of a CharacterConstant is its value without the quotes)
+    return ["'%s'" % t.token if type(t).__name__ == "CharacterConstant" else str(t) for t in toks]
 
 
 def _pre(i1, i2, i3, g, h):
@@ -92,7 +94,7 @@ def h_expand(i1: int, i2: int, i3: int, g: int, h: int) -> bool:
     post: _
     """
     idx = []
-    for v, n in ((i1, 18), (i2, 18), (i3, 18), (g, 9), (h, 3)):
+    for v, n in ((i1, len(ITEMS)), (i2, len(ITEMS)), (i3, len(ITEMS)), (g, 9), (h, 3)):
         for k in range(n):
             if v == k:
                 idx.append(k)
@@ -101,7 +103,8 @@ def h_expand(i1: int, i2: int, i3: int, g: int, h: int) -> bool:
         import codebasin.preprocessor as pp
 
         head = HEADS[P["head"]]
-        items = [ITEMS[idx[0]], ITEMS[idx[1]]] + ([ITEMS[idx[2]]] if P["three"] else [])
+        sel = P.get("items") or list(range(len(ITEMS)))
+        items = [ITEMS[sel[idx[0]]], ITEMS[sel[idx[1]]]] + ([ITEMS[sel[idx[2]]]] if P["three"] else [])
         body = " ".join(items)
         gdef, hdef = GDEFS[idx[3]], HDEFS[idx[4]]
         inv = INVS[P["inv"]]
@@ -304,9 +307,9 @@ def obligations(tier, known):
     obs = []
     regions = sorted(known)
     if tier == "quick":
-        nitems, ng, nh, invs = 8, 4, 2, list(range(12))
+        nitems, ng, nh, invs = 8, 4, 2, list(range(12)) + [21, 22, 23]
     else:
-        nitems, ng, nh, invs = 18, 9, 3, list(range(len(INVS)))
+        nitems, ng, nh, invs = len(ITEMS), 9, 3, list(range(len(INVS)))
     def some_valid(hd, iv):
         for body in ("1 1", "x 1", "x y", "__VA_ARGS__ 1"):
             try:
@@ -320,8 +323,10 @@ def obligations(tier, known):
         for iv in invs:
             if not some_valid(hd, iv):
                 continue  # the invocation's argument count never fits this head: gcc diagnoses it
+            # the quick tier's 8 body items: for variadic heads __VA_ARGS__ and #__VA_ARGS__ take the places of y and x##1
+            sel = [0, 1, 2, 3, 8, 5, 6, 11] if (tier == "quick" and "..." in HEADS[hd][0]) else None
             obs.append(Ob(id="expand/%s/%s" % (HEADS[hd][0], INVS[iv].replace(" ", "_")), kind="ch", module=__name__, func="h_expand",
-                          params=dict(head=hd, inv=iv, nitems=nitems, ng=ng, nh=nh, three=False, regions=regions), timeout=900,
+                          params=dict(head=hd, inv=iv, nitems=nitems, ng=ng, nh=nh, three=False, regions=regions, items=sel), timeout=900,
                           group="expand"))
     if tier == "thorough":
         for hd in range(len(HEADS)):
